@@ -281,6 +281,17 @@ def gen_meta_writer():
         emit(f"Definition gen_meta_w_nochannel_ok : bool := {'true' if okdims else 'false'}.  (* NDims={hdr['NDims']} DimSize={hdr['DimSize']} channels={hdr.get('ElementNumberOfChannels')} for a 3-D scalar array of size {PRIMES} *)")
     except Exception as e:  # noqa
         emit(f"Definition gen_meta_w_nochannel_ok : bool := false. (* raises {type(e).__name__} *)")
+    # ... and the whole file (header and payload) must be the one written for the same data with a leading channel axis of 1
+    same = True
+    for D in (2, 3):
+        for comp in (False, True):
+            try:
+                h0, p0, _ = trace_meta_write(D, 1, SMALL[:D], compress=comp, with_channel_dim=False)
+                h1, p1, _ = trace_meta_write(D, 1, SMALL[:D], compress=comp, with_channel_dim=True)
+                same = same and h0 == h1 and p0 == p1
+            except Exception:  # noqa
+                same = False
+    emit(f"Definition gen_meta_w_nochannel_same_as_c1 : bool := {'true' if same else 'false'}.")
 
 
 # =================================================================================================
